@@ -278,7 +278,7 @@ fn mutating_bodies() -> Vec<(&'static str, String)> {
             }
             if !val.is_empty() {
                 if is_str {
-                    b.push_str(&format!("print({v}->len())\nacc += {v}\n", v = val));
+                    b.push_str(&format!("acc += {v}\n", v = val));
                 } else {
                     b.push_str(&format!("print({})\n", val));
                 }
